@@ -567,6 +567,7 @@ struct Harness {
     w: World,
     signer: Option<SignerProc>,
     restarts: u64,
+    panics: u64,
     lost_cache: BTreeMap<String, bool>,
 }
 
@@ -574,7 +575,7 @@ impl Harness {
     async fn new(dir: PathBuf) -> Harness {
         let w = World::new(dir).await;
         let signer = Some(w.start_signer().await);
-        Harness { w, signer, restarts: 0, lost_cache: BTreeMap::new() }
+        Harness { w, signer, restarts: 0, panics: 0, lost_cache: BTreeMap::new() }
     }
 
     /// a beacon marked as signed without any signature received: TRUE iff the signer, with the initializer it has stored
@@ -600,18 +601,30 @@ impl Harness {
                     s.fault = fault.clone();
                     s.turn = a["turn"].as_bool().unwrap_or(false);
                 }
-                let r = self.signer.as_ref().unwrap().state_machine.cycle().await;
+                // a panic of the code under test is data: it ends the process, which is then restarted
+                let r = {
+                    use futures::FutureExt;
+                    std::panic::AssertUnwindSafe(self.signer.as_ref().unwrap().state_machine.cycle()).catch_unwind().await
+                };
                 {
                     let mut s = self.w.store.write().await;
                     s.fault = "none".into();
                     s.turn = false;
                 }
                 match r {
-                    Ok(()) => json!({"ok": true, "err": "", "critical": false}),
-                    Err(e) => {
+                    Ok(Ok(())) => json!({"ok": true, "err": "", "critical": false, "panic": false}),
+                    Ok(Err(e)) => {
                         let critical = e.is_critical();
                         let t = format!("{e}");
-                        json!({"ok": false, "critical": critical, "err": t.chars().take(200).collect::<String>()})
+                        json!({"ok": false, "critical": critical, "panic": false, "err": t.chars().take(200).collect::<String>()})
+                    }
+                    Err(p) => {
+                        let msg = p.downcast_ref::<String>().cloned().or_else(|| p.downcast_ref::<&str>().map(|s| s.to_string())).unwrap_or_default();
+                        self.signer = None;
+                        self.signer = Some(self.w.start_signer().await);
+                        self.restarts += 1;
+                        self.panics += 1;
+                        json!({"ok": false, "critical": true, "panic": true, "err": msg.chars().take(200).collect::<String>()})
                     }
                 }
             }
@@ -847,6 +860,7 @@ fn random_schedule(r: &mut ChaCha20Rng, len: usize) -> Vec<Value> {
 /// what one schedule produced
 struct RunOutput {
     events: Vec<Value>,
+    panics: u64,
     actions: u64,
     signatures: usize,
     registrations: usize,
@@ -858,7 +872,7 @@ struct RunOutput {
 /// fault-free epilogue
 fn run_schedule(dir: PathBuf, id: &Value, schedule: &[Value]) -> RunOutput {
     let rt = tokio::runtime::Builder::new_current_thread().enable_all().build().unwrap();
-    let mut out = RunOutput { events: vec![], actions: 0, signatures: 0, registrations: 0, restarts: 0, hits: BTreeMap::new() };
+    let mut out = RunOutput { events: vec![], panics: 0, actions: 0, signatures: 0, registrations: 0, restarts: 0, hits: BTreeMap::new() };
     rt.block_on(async {
         let mut h = Harness::new(dir.clone()).await;
         let obs = h.project().await;
@@ -897,6 +911,7 @@ fn run_schedule(dir: PathBuf, id: &Value, schedule: &[Value]) -> RunOutput {
         out.signatures = s.sigs.len();
         out.registrations = s.reg_log.iter().filter(|r| r.0 != 0).count();
         out.restarts = h.restarts;
+        out.panics = h.panics;
         out.hits = s.hits.clone();
     });
     let _ = std::fs::remove_dir_all(&dir);
@@ -905,6 +920,7 @@ fn run_schedule(dir: PathBuf, id: &Value, schedule: &[Value]) -> RunOutput {
 
 fn main() {
     let args = Args::parse();
+    vh_core::quiet_panics();
     let seed = args.num("seed", 1);
     let out = args.req("out");
     let work = PathBuf::from(args.get("work").unwrap_or("/verif/work/signer".into()));
@@ -944,8 +960,10 @@ fn main() {
     let mut signatures = 0usize;
     let mut registrations = 0usize;
     let mut restarts = 0u64;
+    let mut panics = 0u64;
     let mut hits: BTreeMap<String, u64> = BTreeMap::new();
     for (_, r) in results {
+        panics += r.panics;
         for e in r.events {
             trace.emit(e);
         }
@@ -961,6 +979,6 @@ fn main() {
     println!(
         "{}",
         json!({"events": n, "actions": actions, "schedules": schedules.len(), "signatures_received": signatures,
-               "registrations_recorded": registrations, "restarts": restarts, "faults_exercised": hits})
+               "registrations_recorded": registrations, "restarts": restarts, "panics_of_code_under_test": panics, "faults_exercised": hits})
     );
 }
